@@ -17,7 +17,7 @@ def wellformed(r):
 
 
 def run_setops(ck, plan, pid):
-    results = jobs.run_jobs('harness.workers.setop_worker', plan)
+    results = jobs.run_jobs('harness.workers.setop_worker', plan, pure=True)
     allrecs, owners = {}, {}
     for job, res, err in results:
         ident = dict(fam=job['fam'], impl=job['impl'])
@@ -67,6 +67,11 @@ def main():
         for impl in ('c', 'py'):
             plan.append(dict(fam=fam, impl=impl, emb='ext' if fam[0] == 'O' or len(plan) % 3 == 0 else 'mid', nkeys=3 if quick else 4,
                              seed=ck.seed * 100 + len(plan), maxpairs=(2500 if impl == 'c' else 900) if quick else 40000))
+    # operands that are instances of user subclasses of the container types (containers of that kind like any other)
+    for fam in (['OO', 'II'] if quick else ['OO', 'II', 'LF', 'fs', 'QQ', 'IO']):
+        for impl in ('c', 'py'):
+            plan.append(dict(fam=fam, impl=impl, emb='mid', nkeys=3, subclassed=True,
+                             seed=ck.seed * 100 + 50 + len(plan), maxpairs=(1200 if impl == 'c' else 500) if quick else 20000))
     run_setops(ck, plan, 'C10')
     ck.assumptions += ['operands hold keys of the family', 'first operand of difference and of the operators is a BTrees container']
     ck.finish(exhaustive=not quick)
